@@ -1,7 +1,7 @@
 #!/usr/bin/env python3
 """Build, in a scratch worktree, a linear history on top of /repo's HEAD with one `fix:` commit per proposed fix
 (tools/fix_order.json), so that it can be verified as a whole and then fast-forwarded into /repo.
-usage: tools/build_fix_branch.py <worktree-dir>      (prints which diffs needed fuzz / failed)"""
+usage: tools/build_fix_branch.py <worktree-dir> [base-commit]      (prints which diffs needed fuzz / failed)"""
 import json, os, subprocess, sys
 V = os.path.dirname(os.path.dirname(os.path.abspath(__file__)))
 wt = sys.argv[1]
@@ -9,7 +9,8 @@ def sh(cmd, cwd=None):
     p = subprocess.run(cmd, shell=True, cwd=cwd, stdout=subprocess.PIPE, stderr=subprocess.STDOUT, text=True)
     return p.returncode, p.stdout
 sh("git -C /repo worktree remove --force %s" % wt)
-rc, out = sh("git -C /repo worktree add --detach %s HEAD" % wt)
+base = sys.argv[2] if len(sys.argv) > 2 else "HEAD"
+rc, out = sh("git -C /repo worktree add --detach %s %s" % (wt, base))
 assert rc == 0, out
 res = []
 for name, subject in json.load(open(os.path.join(V, "tools", "fix_order.json"))):
@@ -25,7 +26,8 @@ for name, subject in json.load(open(os.path.join(V, "tools", "fix_order.json")))
     if rc != 0:
         sh("git checkout -- . && git clean -fdq", cwd=wt)
         res.append((name, "FAILED: " + out[-300:])); continue
-    rc, out = sh("git add -A && git -c user.name=builder -c user.email=builder@localhost commit -q -m %s" % json.dumps(subject), cwd=wt)
+    open("/tmp/_fix_commit_msg.txt", "w").write(subject + "\n")     # -F: no shell interpretation of backticks in the subject
+    rc, out = sh("git add -A && git -c user.name=builder -c user.email=builder@localhost commit -q -F /tmp/_fix_commit_msg.txt", cwd=wt)
     res.append((name, how if rc == 0 else "COMMIT FAILED " + out[-200:]))
 for n, r in res:
     print("%-42s %s" % (n, r))
